@@ -32,13 +32,15 @@ type Frame struct {
 }
 
 type exitInfo struct {
-	kind    string // "return", "panic", "exit"
-	st      *State
-	reach   string
-	results []*Val
-	site    ssa.Instruction
-	val     *Val
-	fr      *Frame
+	kind     string // "return", "panic", "exit"
+	st       *State
+	reach    string
+	results  []*Val
+	site     ssa.Instruction
+	val      *Val
+	fr       *Frame
+	topBlock int // top-level block (and incoming edge) in which the exit was reached: for relevance slicing
+	edgeFrom int
 }
 
 type Obligation struct {
@@ -60,6 +62,10 @@ type Obligation struct {
 	Result         *SolverResult
 	SMTFile        string
 	CandidateModel bool
+	Group          string // obligations of one function exit are first tried as one conjunction
+	GroupHead      bool
+	Block          int // top-level block the obligation arises in (for relevance slicing)
+	EdgeFrom       int // when the block was executed per incoming edge: the predecessor (-1 otherwise)
 	Decided        bool
 	Replayed       bool
 }
@@ -130,6 +136,29 @@ func blockPos(b *ssa.BasicBlock) token.Pos {
 	return best
 }
 
+// capturedOnly: a heap-allocated local whose address escapes only into closures (a captured variable).
+func capturedOnly(al *ssa.Alloc) bool {
+	refs := al.Referrers()
+	if refs == nil {
+		return false
+	}
+	closure := false
+	for _, r := range *refs {
+		switch x := r.(type) {
+		case *ssa.Store:
+			if x.Val == al {
+				return false
+			}
+		case *ssa.UnOp, *ssa.DebugRef:
+		case *ssa.MakeClosure:
+			closure = true
+		default:
+			return false
+		}
+	}
+	return closure
+}
+
 func regSafe(v ssa.Value, depth int) bool {
 	refs := v.Referrers()
 	if refs == nil {
@@ -183,7 +212,7 @@ func (c *Ctx) oblige(kind, name, label string, props []string, goal string, pos 
 		name = fmt.Sprintf("%s.%d", name, n)
 	}
 	o := &Obligation{Name: name, Func: c.fn.String(), Kind: kind, Label: label, Props: props, Goal: goal,
-		Reach: c.curReach, NAsserts: len(c.asserts), NDecls: len(c.decls), Src: src}
+		Reach: c.curReach, NAsserts: len(c.asserts), NDecls: len(c.decls), Src: src, Block: c.curTopBlock, EdgeFrom: c.curEdgeFrom, Group: c.curGroup}
 	if pos.IsValid() {
 		p := c.prog.Prog.Fset.Position(pos)
 		o.Pos = fmt.Sprintf("%s:%d", strings.TrimPrefix(p.Filename, c.prog.Repo+"/"), p.Line)
@@ -369,6 +398,7 @@ func naturalLoop(head *ssa.BasicBlock, back map[[2]int]bool) map[*ssa.BasicBlock
 type incoming struct {
 	st   *State
 	cond string
+	from int
 }
 
 // execBody symbolically executes fr.fn from st. Exits are appended to c.exits of the frame owner.
@@ -384,7 +414,7 @@ func (c *Ctx) execBody(fr *Frame, st *State, reach string) []*exitInfo {
 
 	order := rpo(fn, fr.backEdge)
 	in := map[*ssa.BasicBlock][]incoming{}
-	in[fn.Blocks[0]] = []incoming{{st, reach}}
+	in[fn.Blocks[0]] = []incoming{{st, reach, -1}}
 	var exits []*exitInfo
 
 	for _, b := range order {
@@ -392,8 +422,27 @@ func (c *Ctx) execBody(fr *Frame, st *State, reach string) []*exitInfo {
 		if len(inc) == 0 {
 			continue
 		}
+		if fr == c.topFrame {
+			c.curTopBlock = b.Index // joins and reach definitions of this block belong to it
+		}
 		var bst *State
 		var breach string
+		// a return block reached from many branches is executed once per incoming edge: the
+		// postconditions are then checked on each branch's own (small) state instead of on a big join
+		if len(inc) > 2 && c.quant == 0 && c.pure == 0 && fr == c.topFrame && isReturnOnly(b) && fr.loopOrd[b] == 0 {
+			c.curTopBlock = b.Index
+			for _, x := range inc {
+				if x.cond == "false" {
+					continue
+				}
+				c.curReach = x.cond
+				c.curEdgeFrom = x.from
+				ex := c.execBlock(fr, b, x.st.clone(), in)
+				c.curEdgeFrom = -1
+				exits = append(exits, ex...)
+			}
+			continue
+		}
 		if len(inc) == 1 {
 			bst = inc[0].st.clone()
 			breach = inc[0].cond
@@ -416,6 +465,9 @@ func (c *Ctx) execBody(fr *Frame, st *State, reach string) []*exitInfo {
 		if breach == "false" {
 			continue
 		}
+		if fr == c.topFrame {
+			c.curTopBlock = b.Index
+		}
 		if ord, isHead := fr.loopOrd[b]; isHead {
 			bst = c.enterLoop(fr, b, ord, bst)
 		}
@@ -423,6 +475,28 @@ func (c *Ctx) execBody(fr *Frame, st *State, reach string) []*exitInfo {
 		exits = append(exits, ex...)
 	}
 	return exits
+}
+
+// isReturnOnly: the block only loads results and returns.
+func isReturnOnly(b *ssa.BasicBlock) bool {
+	if len(b.Instrs) == 0 {
+		return false
+	}
+	if _, ok := b.Instrs[len(b.Instrs)-1].(*ssa.Return); !ok {
+		return false
+	}
+	for _, in := range b.Instrs[:len(b.Instrs)-1] {
+		switch x := in.(type) {
+		case *ssa.RunDefers, *ssa.DebugRef:
+		case *ssa.UnOp:
+			if x.Op != token.MUL {
+				return false
+			}
+		default:
+			return false
+		}
+	}
+	return true
 }
 
 func (c *Ctx) loopSpec(fr *Frame, ord int) *LoopSpec {
@@ -518,6 +592,18 @@ func (c *Ctx) inferInvariants(fr *Frame, head *ssa.BasicBlock, loop map[*ssa.Bas
 			}
 		}
 		if !ok || init == nil || inLoop == 0 {
+			continue
+		}
+		// only counters tested by the loop condition (cell < bound): otherwise the increment may overflow
+		bounded := false
+		if iff, isIf := head.Instrs[len(head.Instrs)-1].(*ssa.If); isIf {
+			if b, isBin := iff.Cond.(*ssa.BinOp); isBin && (b.Op == token.LSS || b.Op == token.LEQ) {
+				if ld, isLd := b.X.(*ssa.UnOp); isLd && ld.X == al {
+					bounded = true
+				}
+			}
+		}
+		if !bounded {
 			continue
 		}
 		cell := al
@@ -790,10 +876,10 @@ func (c *Ctx) execBlock(fr *Frame, b *ssa.BasicBlock, st *State, in map[*ssa.Bas
 			for _, r := range x.Results {
 				rs = append(rs, c.val(fr, st, r))
 			}
-			exits = append(exits, &exitInfo{kind: "return", st: st, reach: c.curReach, results: rs, site: ins, fr: fr})
+			exits = append(exits, &exitInfo{kind: "return", st: st, reach: c.curReach, results: rs, site: ins, fr: fr, topBlock: c.curTopBlock, edgeFrom: c.curEdgeFrom})
 			return exits
 		case *ssa.Panic:
-			exits = append(exits, &exitInfo{kind: "panic", st: st, reach: c.curReach, site: ins, val: c.val(fr, st, x.X), fr: fr})
+			exits = append(exits, &exitInfo{kind: "panic", st: st, reach: c.curReach, site: ins, val: c.val(fr, st, x.X), fr: fr, topBlock: c.curTopBlock, edgeFrom: c.curEdgeFrom})
 			return exits
 		default:
 			if ex := c.execInstr(fr, st, ins); ex != nil {
@@ -846,7 +932,7 @@ func (c *Ctx) edge(fr *Frame, from, to *ssa.BasicBlock, st *State, cond string, 
 		return
 	}
 	c.phiConds[phiKey{fr.id, from.Index, to.Index}] = cond
-	in[to] = append(in[to], incoming{st, cond})
+	in[to] = append(in[to], incoming{st, cond, from.Index})
 }
 
 // ---------- instructions ----------
@@ -956,6 +1042,7 @@ func (c *Ctx) execInstr(fr *Frame, st *State, ins ssa.Instruction) []*exitInfo {
 	case *ssa.MakeClosure:
 		// opaque function value; bindings may be written by the closure when called
 		id := c.fresh("closure", "Int")
+		c.assumeAlways(app(">", id, "0"))
 		c.set(fr, x, &Val{T: x.Type(), Term: id})
 		c.closureBindings(fr, st, x, id)
 	case *ssa.Phi:
@@ -1087,6 +1174,9 @@ func (c *Ctx) execAlloc(fr *Frame, st *State, x *ssa.Alloc) {
 		c.zeroElems(st, u.Elem(), ref)
 	default:
 		c.Store(st, p, c.zeroVal(et))
+	}
+	if capturedOnly(x) && sortOf(et) != "" && c.dry == 0 {
+		c.captured = append(c.captured, capturedCell{leaf: "C:" + typeName(et), sort: c.compSort(sortOf(et), 1), ref: ref})
 	}
 	c.set(fr, x, &Val{T: x.Type(), Term: ref})
 }
@@ -1445,6 +1535,13 @@ func (c *Ctx) bitop(op token.Token, a, b *Val, rt types.Type) *Val {
 		cst := parseNumeral(y)
 		if cst.Sign() < 0 {
 			cst = new(bigInt).Add(cst, new(bigInt).Lsh(newBig(1), uint(bits)))
+		}
+		if op == token.AND && cst.Sign() > 0 {
+			// x & (2^k - 1) == x mod 2^k for every two's complement x
+			plus1 := new(bigInt).Add(cst, newBig(1))
+			if plus1.BitLen()-1 <= bits && new(bigInt).And(plus1, cst).Sign() == 0 {
+				return &Val{T: rt, Term: c.define("bits", "Int", app("mod", x, plus1.String()))}
+			}
 		}
 		ux := toUnsigned(rt, x)
 		an := andConst(ux, cst)
